@@ -63,9 +63,14 @@ extern uint64_t PIECE_HASH[PIECE_NUM][SQUARE_NUM];
 extern uint64_t CASTLING_HASH[1 << 4];
 extern uint64_t SIDE_HASH;
 extern uint64_t ENPASSANT_HASH[FILE_NUM];
+// internals the harness reads are probed in the sources by tools/vbuild.py (VH_* defines): a refactoring that removes one of them
+// costs only the checks that need it, not the whole harness
+#ifdef VH_IMPORTANCE_FN
 double importance(double x);
+#endif
+#ifdef VH_LMR_FN
 int late_move_reduction(Depth depth, int move_number);
-Value compute_search_delta(Move* previous_best_moves, Depth current_depth, Value current_score);
+#endif
 namespace bitbase { extern uint32_t BITBASE[]; }
 }  // namespace engine
 
@@ -103,10 +108,19 @@ static void dump_tables()
     arri("ROOK_INDEX_BITS", ROOK_INDEX_BITS, 64);
     arr("CASTLING_PATHS", CASTLING_PATHS, 16);
     arr("QUEEN_CASTLING_BLOCK", QUEEN_CASTLING_BLOCK, 2);
-    printf("MAX_DEPTH %d\nMAX_PLIES %d\nMAX_MOVES %d\nMAX_PINS %d\n", MAX_DEPTH, MAX_PLIES, MAX_MOVES, MAX_PINS);
+    printf("MAX_DEPTH %d\nMAX_PLIES %d\nMAX_MOVES %d\n", MAX_DEPTH, MAX_PLIES, MAX_MOVES);
+#ifdef VH_MAX_PINS
+    printf("MAX_PINS %d\n", MAX_PINS);
+#else
+    printf("MAX_PINS 0\n");   // no such array in this tree
+#endif
     printf("STACK_INFO_SIZE %zu\n", std::tuple_size<StackInfo>::value);
     printf("PV_LIST_SIZE %zu\n", std::tuple_size<decltype(Info::_pv_list)>::value);
+#ifdef VH_MOVE_LIST
     printf("MOVE_LIST_ROWS %zu\n", sizeof(MOVE_LIST) / sizeof(MOVE_LIST[0]));
+#else
+    printf("MOVE_LIST_ROWS 0\n");
+#endif
     printf("SEARCHMOVES_CAP %zu\n", sizeof(Limits::searchmoves) / sizeof(Move));
     printf("PIECE_LIST_CAP %zu\n", sizeof(Position::_piece_position[0]) / sizeof(Square));
     printf("STOP_FLAG_ATOMIC %d\n", (int)std::is_same_v<decltype(Search::stop_search), std::atomic<bool>>);
@@ -196,12 +210,20 @@ static void dump_tables()
         printf("\n");
     }
     printf("LMR");
+#ifdef VH_LMR_FN
     for (int m = 1; m <= 70; ++m) printf(" %d", late_move_reduction(5, m));
+#else
+    for (int m = 1; m <= 70; ++m) printf(" 0");
+#endif
     printf("\n");
     printf("IMPORTANCE_BITS");
     for (int x = 0; x <= 1500; ++x)
     {
+#ifdef VH_IMPORTANCE_FN
         double d = importance((double)x);
+#else
+        double d = 0.0;
+#endif
         uint64_t u; memcpy(&u, &d, 8);
         printf(" %" PRIu64, u);
     }
